@@ -400,7 +400,7 @@ func runC04(c C04Case, o *Obs) error {
 func init() { register("TestC04_Crash", runC04) }
 
 func TestC04_Crash(t *testing.T) {
-	st := newStats(t, "C04", "TestC04_Crash", "a committed multi-writer prefix history (1-3 writers, entries_per_node 2-4096, 2-18 steps) followed by a victim: read-write open (merge commit when >=2 versions are unmerged) then nothing / one autocommit statement / a transaction of 1-4 statements / s3db_vacuum (cutoffs incl. year 2100); a fault-free reference run on a copy gives before, after and M = mutating requests; in half of the cases another writer commits one statement after the victim's handle was opened, so the victim's commit dies next to an unmerged version; for EVERY k in 0..M the victim is re-run on a fresh copy with every request after its k-th mutation failing, then a read-only, a read-write and a third recovery open must succeed, agree, show exactly before or after (after if acknowledged; before=after for vacuum) and every version object must still resolve all its node links; non-trivial = 0<k<M on a tree of height>=1")
+	st := newStats(t, "C04", "TestC04_Crash", "a committed multi-writer prefix history (1-3 writers, entries_per_node 2-4096, 2-18 steps) followed by a victim: read-write open (merge commit when >=2 versions are unmerged) then nothing / one autocommit statement / a transaction of 1-4 statements / s3db_vacuum (cutoffs incl. year 2100); a fault-free reference run on a copy gives before, after and M = mutating requests; in half of the cases another writer commits one statement after the victim's handle was opened, so the victim's commit dies next to an unmerged version; for EVERY k in 0..M the victim is re-run on a fresh copy with every request after its k-th mutation failing, then a read-only, a read-write and a third recovery open must succeed, agree, show exactly before or after (after if acknowledged; before=after for vacuum) and every version object must still resolve all its node links; a third of the transaction victims without a late writer CREATE their table inside the transaction (BEGIN; CREATE VIRTUAL TABLE; statements; COMMIT: SQLite calls no begin callback for such a table); non-trivial = 0<k<M on a tree of height>=1")
 	st.Assume = append(st.Assume, "the order in which mast's flush goroutines issue node PUTs is not pinned: which nodes exist at crash point k can differ between runs; the verdict must hold for each")
 	checkRapid(t, st, genC04Case, runC04)
 }
